@@ -37,12 +37,12 @@ structure Rec where
 deriving DecidableEq, Repr, Inhabited
 
 /-- One transaction: `packed` = status `'p'`; `mlen` = |user|+|description|+|extension|;
-    `meta` an opaque digest of the three. -/
+    `mdata` an opaque digest of the three. -/
 structure Txn where
   tid    : Tid
   packed : Bool
   mlen   : Nat
-  meta   : Bytes
+  mdata  : Bytes
   recs   : List Rec
 deriving DecidableEq, Repr, Inhabited
 
@@ -138,7 +138,7 @@ def refsAtT (pre : History) (o : Oid) : List Oid :=
   | none => []
 
 /-- every oid that occurs anywhere (search universe, only used for the fuel) -/
-def universe (h : History) : List Oid :=
+def allOids (h : History) : List Oid :=
   0 :: h.flatMap (fun t => t.recs.flatMap (fun r => r.oid :: r.refs))
 
 /-- `len(oid2curpos) == 0` -/
@@ -313,7 +313,7 @@ def packFS (h : History) (T : Tid) (gc : Bool) : PackOut :=
     let post := h.dropWhile (fun t => decide (t.tid ≤ T))
     if redundant pre post then .redundant
     else
-      match findReachable pre post T gc (universe h) with
+      match findReachable pre post T gc (allOids h) with
       | .error e => .error e
       | .ok g =>
         let pre' := copyPre g.isReachable pre
@@ -346,7 +346,7 @@ def refsAll (h : History) (o : Oid) : List Oid := (recsOf h o).flatMap (fun x =>
 /-- step 2: sweep from the root and the objects written after the pack time -/
 def mappingSweep (h1 : History) (T : Tid) : Except PackErr History :=
   let seeds := 0 :: (h1.flatMap (fun t => t.recs.map (·.oid))).filter (fun o => writtenAfter h1 T o)
-  match Reach.closure (refsAll h1) (Reach.fuelFor (refsAll h1) seeds (universe h1)) [] seeds with
+  match Reach.closure (refsAll h1) (Reach.fuelFor (refsAll h1) seeds (allOids h1)) [] seeds with
   | none => .error .fuel
   | some S =>
     if S.all (fun o => !(recsOf h1 o).isEmpty) then .ok (prune (fun _ o => S.contains o) h1)
@@ -397,10 +397,10 @@ def NoResurrectionWeak (h : History) (T : Tid) : Prop :=
 /-- list of oids reachable from the root at the pack time (`none`: out of fuel — never) -/
 def reachListAtT (h : History) (T : Tid) : Option (List Oid) :=
   let pre := h.takeWhile (fun t => decide (t.tid ≤ T))
-  Reach.closure (refsAtT pre) (Reach.fuelFor (refsAtT pre) [0] (universe h)) [] [0]
+  Reach.closure (refsAtT pre) (Reach.fuelFor (refsAtT pre) [0] (allOids h)) [] [0]
 
 def reachListAt (h : History) (b : Tid) : Option (List Oid) :=
-  Reach.closure (refsAt h b) (Reach.fuelFor (refsAt h b) [0] (universe h)) [] [0]
+  Reach.closure (refsAt h b) (Reach.fuelFor (refsAt h b) [0] (allOids h)) [] [0]
 
 def noResurrectionB (h : History) (T : Tid) (strong : Bool) : Bool :=
   match reachListAtT h T with
